@@ -93,6 +93,9 @@ def validate_run(chk, model_run, name, parent_threads, repeat_step, initfull):
     r = run_tlc("TraceSystem", cfg[:-4], workers=4, env={"TRACE_FILE": tf}, name="trace_system_" + name, timeout=1200)
     chk.states += r.distinct
     chk.transitions += r.generated
+    if not r.ok and r.violated in common.INTERNAL_INVARIANTS:
+        chk.drift_note("a recorded parallel run with caching violates %s of System.tla (internal state; results are compared separately)" % r.violated)
+        return False
     if not r.ok:
         chk.violation("a recorded parallel run with caching violates %s of the composed specification System.tla" % r.violated,
                       {"kind": "system_trace", "run": name, "invariant": r.violated}, klass={"check": "system_trace_invariant", "invariant": r.violated})
